@@ -17,6 +17,9 @@
 #include <AIToolbox/MDP/Model.hpp>
 #include <AIToolbox/MDP/SparseModel.hpp>
 #include <AIToolbox/MDP/Policies/Policy.hpp>
+#include <AIToolbox/MDP/Policies/QGreedyPolicy.hpp>
+#include <AIToolbox/MDP/Policies/QSoftmaxPolicy.hpp>
+#include <AIToolbox/MDP/Policies/EpsilonPolicy.hpp>
 #include <AIToolbox/POMDP/Model.hpp>
 #include <AIToolbox/POMDP/SparseModel.hpp>
 #include <AIToolbox/POMDP/Policies/Policy.hpp>
@@ -224,8 +227,20 @@ template <> struct Gen<M::SparseExperience> {
 template <> struct Gen<AI::Vector> {
     static AI::Vector make(Rng & r, Shape sh, int st) { AI::Vector v(sh.S); for (size_t i = 0; i < sh.S; ++i) v[i] = genVal(r, st); return v; }
 };
+// MDP policies as the library's own policy classes produce them (`operator<<` takes any PolicyInterface and writes its
+// getPolicy() matrix): greedy with ties (1/k entries), softmax (irrational probabilities), epsilon mixtures
 template <> struct Gen<M::Policy> {
-    static M::Policy make(Rng & r, Shape sh, int st) { return M::Policy(genProbMat(r, sh.S, sh.A, st)); }
+    static M::Policy make(Rng & r, Shape sh, int st) {
+        if (st == 0 || r.coin()) return M::Policy(genProbMat(r, sh.S, sh.A, st));
+        M::QFunction q(sh.S, sh.A);
+        for (size_t s = 0; s < sh.S; ++s) for (size_t a = 0; a < sh.A; ++a) q(s, a) = (double)r.range(-3, 3) / 3.0;
+        std::printf("#stat mpol_from_policy_class 1\n");
+        switch (r.below(3)) {
+            case 0: { M::QGreedyPolicy g(q); return M::Policy(g); }
+            case 1: { M::QSoftmaxPolicy g(q, 0.7); return M::Policy(g); }
+            default: { M::QGreedyPolicy g(q); M::EpsilonPolicy e(g, 0.3); return M::Policy(e); }
+        }
+    }
 };
 static PO::ValueFunction genVF(Rng & r, Shape sh, int st, size_t H) {
     auto vf = PO::makeValueFunction(sh.S);
@@ -400,7 +415,9 @@ template <class T> static void runObject(const std::string & kind, Rng & rng, Sh
     }
     {   // every truncation point
         Line l; l << "C17" << "trunc" << head << "|" << hexOf(text) << "|" << exactOf(x) << "|" << text.size();
-        for (size_t k = 0; k < text.size(); ++k) outcome(l, d0, d0bits, text.substr(0, k));
+        // the exception-mode repetition on every third prefix only (the sweep is quadratic in the text length)
+        for (size_t k = 0; k < text.size(); ++k) { g_exceptionMode = (k % 3 == 0); outcome(l, d0, d0bits, text.substr(0, k)); }
+        g_exceptionMode = true;
         l.emit();
         std::printf("#stat trunc_points %zu\n", text.size());
     }
@@ -639,7 +656,7 @@ static void witnessStreamFlags(Rng & rng, const std::string & tier) {
 }
 
 static const int kWitnesses = 6;
-long verif::verif_ncases(const std::string & tier) { return kWitnesses + (tier == "thorough" ? 2200 : 220); }
+long verif::verif_ncases(const std::string & tier) { return kWitnesses + (tier == "thorough" ? 1500 : 220); }
 
 void verif::verif_case(Rng & rng, long idx, const std::string & tier) {
     if (idx == 0) { witnessPolicyPrecision(rng, tier); return; }
